@@ -55,7 +55,7 @@ def make_cases(tier, seed, groups):
                 cases.append({"group": "value", "fen": fen, "moves": ms, "specs": ["d%dx" % d]})
     if "budget" in groups:
         # C13 / C09: every node budget up to the size of the full search
-        chosen = [pos[i] for i in (0, 2, 5, 7, 13)] if tier == "quick" else pos
+        chosen = [pos[i] for i in (0, 2, 5, 7, 13)] if tier == "quick" else pos[:14]
         for fen, ms in chosen:
             pieces = sum(1 for ch in fen.split()[0] if ch.isalpha())
             d = 2 if pieces > 10 else 3
@@ -262,6 +262,8 @@ def run(tier, seed, groups=("value", "budget", "seq", "cut", "timer")):
                 step = 1
                 if tier == "quick" and full > 150:
                     step = full // 150 + 1
+                elif tier != "quick" and full > 500:
+                    step = full // 500 + 1
                 budgets = list(range(1, full + 2, step))
                 for n in budgets:
                     extra.append({"group": "budget", "fen": c["fen"], "moves": c["moves"],
